@@ -639,7 +639,7 @@ def big_coords(n: int, x64: bool):
 
 class Check(PropertyCheck):
     id = 'C17'
-    props = ['C17.v']
+    props = ['C17.v', 'C17Ring.v']
     static_targets = ['theories/Lemmas/LandscapeL.vo']
     coq_header = (
         'From Coq Require Import ZArith QArith List.\nFrom Furax Require Import Model.Landscape.\n'
